@@ -5,6 +5,7 @@ import common as C
 
 
 VMARK = -1000000009
+SMARK = -1000000019
 
 
 def bf(b):
@@ -144,14 +145,29 @@ def coq_term(tr, f):
         else:
             lo -= len(db["leaves"])
     vfn = "nuts_visited32" if f == "f32" else "nuts_visited64"
-    return "let tbl := %s in (%s) ++ (%s tbl %d [%s])" % (
-        tbl, main.replace(tbl, "tbl", 1), vfn, tbits(f, tr["start"]["logu"]), "; ".join(calls))
+    sfn = "nuts_span32" if f == "f32" else "nuts_span64"
+    return "let tbl := %s in (%s) ++ (%s tbl %d [%s]) ++ [%d] ++ (%s)" % (
+        tbl, main.replace(tbl, "tbl", 1), vfn, tbits(f, tr["start"]["logu"]), "; ".join(calls), SMARK,
+        main.replace(tbl, "tbl", 1).replace(fn, sfn, 1))
 
 
 def expected(tr, f, model):
     """compare the model's rendering with the trace; returns None or a description"""
     table, per = build_table(tr)
     nd = len(tr["doublings"])
+    if SMARK in model:
+        k4 = model.index(SMARK)
+        model, sp = model[:k4], model[k4 + 1:]
+        if sp != [-2] and model != [-2]:
+            if len(sp) != 6:
+                return "model output malformed (span)"
+            lo, hi, sl, sr, complete, cnt = sp
+            if cnt not in (1, -1):
+                return "%d direction sequences rebuild the trajectory from the chain's new point; the symmetry theorem says exactly one" % cnt
+            if (lo, hi) != (min(table), max(table)):
+                return "the trajectory covers indices %d..%d in the implementation, %d..%d in the model" % (min(table), max(table), lo, hi)
+            if complete == 1 and (sl, sr) != (lo, hi):
+                return "every subtree was complete but the trajectory %d..%d is not span_from 0 (directions) = %d..%d" % (lo, hi, sl, sr)
     if VMARK in model:
         k3 = model.index(VMARK)
         model, vis = model[:k3], model[k3:]
